@@ -37,7 +37,7 @@ func (prop) Rule() string {
 		"several times without Reset (running segment index), then Reset + Decrypt of the last ciphertext (round trip) and decrypts of arbitrary bytes; (b) EncryptChunk on span||data with |data| in 0,1,32,4096,C-1,C,C+1 followed by the decrypting store's Get on the result; " +
 		"(c) synthetic encrypted chunks (real encryption package, |payload| = C) whose span is 0,1,C-1,C,C+1, k*C+-1, C*4096^h+-1, random < 2^62, and values near 2^63 and 2^64 (wrap-around of the uint64 loop), wrong reference lengths, short stored chunks; " +
 		"(d) files written by the real encrypted pipeline (sizes around the chunk and level boundaries; thorough: around 4096 chunks = 1 GiB) whose every chunk is fetched through the decrypting store and compared with the expected tree shape and content, plus single-path gets; " +
-		"(e) `trie seed n last`: the hash-trie writer of the encrypted pipeline (hashtrie.NewHashTrieWriter(ChunkSize, Branches/2, 64, encryption->bmt->store)) is fed the (span, address, key) triples of n full data chunks (+ one of `last` bytes) without any data, so subtrees of 2^32 bytes and more are reached: 16384 chunks = exactly 4 GiB (fix-trie-4gib), 16385 (fix-trie-4gib-plus-chunk), thorough: 16383 chunks + C-1 bytes and 25 random n up to 70000; root and intermediate chunks are read back through the decrypting store (span = sum of the leaf spans: trie-span-not-sum-of-leaves; payload = 64 bytes per child: strip-intermediate), `get <path>` on them goes through the model as for pipeline files (a path reaching a leaf answers err: leaves are not stored). " +
+		"(e) `trie seed n last`: the hash-trie writer of the encrypted pipeline (hashtrie.NewHashTrieWriter(ChunkSize, Branches/2, 64, encryption->bmt->store)) is fed the (span, address, key) triples of n full data chunks (+ one of `last` bytes) without any data, so subtrees of 2^32 bytes and more are reached: 16384 chunks = exactly 4 GiB (fix-trie-4gib), 16385 (fix-trie-4gib-plus-chunk), thorough: 16383 chunks + C-1 bytes and 8 random n up to 40961; root and intermediate chunks are read back through the decrypting store (span = sum of the leaf spans: trie-span-not-sum-of-leaves; payload = 64 bytes per child: strip-intermediate), `get <path>` on them goes through the model as for pipeline files (a path reaching a leaf answers err: leaves are not stored). " +
 		"Random keys and padding drawn by the code are passed to the model as annotations. Non-trivial: the case contains a round trip, a store Get or a pipeline file; distinct by op-list hash."
 }
 
@@ -256,8 +256,8 @@ func (prop) Gen(r *core.Rand, tier string) []core.Case {
 	cs = append(cs, core.Case{ID: "fix-trie-protocol", Ops: []string{"trie 1 1 0", "trie 1 0 5", "trie 1 3 262145", "trie 1 100001 0", "trie 1 2 0", "get 0", "get 0.0", "get 2"}})
 	if th {
 		trie("fix-trie-below-4gib", 16383, C-1, true)
-		for i := 0; i < 25; i++ {
-			n := r.Pick([]int{2, 4095, 4096, 4097, 8192, 16383, 16384, 16384, 16385, 20480, 32768, 40961, 65536, r.Range(2, 70000), r.Range(16384, 70000)})
+		for i := 0; i < 8; i++ {
+			n := r.Pick([]int{2, 4095, 4096, 4097, 8192, 16383, 16384, 16384, 16385, 20480, 32768, 40961, r.Range(2, 40000), r.Range(16384, 40000)})
 			last := r.Pick([]int{0, 0, 1, C - 1, C, r.Range(1, C)})
 			trie(fmt.Sprintf("tr%d", i), n, last, true)
 		}
